@@ -1045,6 +1045,24 @@ func specialPDFs(kind string) ([][]byte, error) {
 			return nil, err
 		}
 		out = append(out, b)
+	case "count-size-huge":
+		// two cooperating field faults: the page count and the trailer /Size are both huge, so a bound on the one that
+		// is taken from the other (instead of from what the file actually contains) does not hold
+		for _, v := range []int64{1 << 31, 1<<63 - 1} {
+			f := &pdfw.File{EOL: "lf", SizeOverride: v}
+			f.Revs = []pdfw.Revision{{XRef: "table", Root: pdfw.Ref{Num: 1}, Items: []pdfw.Item{
+				{Num: 1, Val: pdfw.Dict{{"Type", pdfw.Name("Catalog")}, {"Pages", pdfw.Ref{Num: 4}}}},
+				{Num: 4, Val: pdfw.Dict{{"Type", pdfw.Name("Pages")}, {"Kids", pdfw.Arr{pdfw.Ref{Num: 5}}}, {"Count", pdfw.Int(v)}}},
+				{Num: 5, Val: page(pdfw.Ref{Num: 6})},
+				{Num: 6, Stm: &pdfw.Stream{Data: []byte("BT /F1 12 Tf 10 10 Td (x) Tj ET")}}}}}
+			pdfw.IntFault = func(int64) (string, bool) { return "", false } // (skips the writer's self-audit of a deliberately wrong file)
+			b, _, err := f.Bytes()
+			pdfw.IntFault = nil
+			if err != nil {
+				return nil, err
+			}
+			out = append(out, b)
+		}
 	case "ttf-segments":
 		// an embedded TrueType program whose character map names the whole code range in each of 32767 segments
 		b, err := ttfDocWith(ttfSegmentsProgram(32767))
